@@ -383,14 +383,22 @@ class Sym:
     def imag(s):
         return s.re_im()[1]
 
+    def _neg_lead(s):
+        k = s.key()
+        return bool(k) and k[0][1] < 0
+
     def sin(s):
         if not s.t:
             return Sym({})
+        if s._neg_lead():                     # canonical sign: sin(-a) = -sin(a)
+            return -opaque('sin', -s)
         return opaque('sin', s)
 
     def cos(s):
         if not s.t:
             return Sym.const(1)
+        if s._neg_lead():                     # cos(-a) = cos(a)
+            return opaque('cos', -s)
         return opaque('cos', s)
 
     def exp(s):
@@ -499,7 +507,12 @@ class Sym:
                     r = sub(W.defn[i]).inv()
                 else:
                     fname, args = W.defn[i]
-                    r = opaque(fname, *[sub(a) for a in args])
+                    if fname == 'sin':
+                        r = sub(args[0]).sin()
+                    elif fname == 'cos':
+                        r = sub(args[0]).cos()
+                    else:
+                        r = opaque(fname, *[sub(a) for a in args])
             memo[i] = r
             return r
 
